@@ -100,6 +100,16 @@ def budget_stream(ctx, spec):
                      f"call {k + 1} ({mt.sym_name}) of a history mixing kernels of an extended tweezer group with plain ones differs "
                      f"from a fresh instance: reused={got[:120]} fresh={want[:120]}")
             break
+    # an instance with a small call-depth limit: failing calls must not eat into it
+    it4 = TraceInterpreter(spec, max_depth=8)
+    for k in range(14):
+        mt, args = (mod.sweep, (g, 2)) if k in (0, 6, 13) else (mod.early, (g, 1))
+        got, want = outcome(it4, mt, args), outcome(TraceInterpreter(spec, max_depth=8), mt, args)
+        ctx.count("small_depth_limit_calls")
+        if got != want:
+            ctx.fail({"source": BUDGET_SRC[len(T.PRELUDE):], "history": f"TraceInterpreter(spec, max_depth=8): {k} earlier calls, most of them failing"},
+                     f"call {k + 1} on an instance with max_depth=8 differs from a fresh instance: reused={got[:120]} fresh={want[:120]}")
+            break
     # a call made from a stack deeper than the instance's recursion limit fails before the kernel starts
     limit0 = sys.getrecursionlimit()
     try:
